@@ -33,8 +33,8 @@ type C28Scenario struct {
 	// Stray is a bit mask of unlock calls that cannot succeed but must not leave state behind either:
 	// 1 = a second Unlock right after the successful one, 2 = a late Unlock of every TTL-expired lock after it expired,
 	// 4 = Unlock of keys that were never locked (one per 4 keys), 8 = Unlock with a wrong id while the key is held.
-	Stray    int   `json:"stray"`
-	Waiters  int   `json:"waiters"`   // every 64th key additionally gets this many queued waiters (0..3) that are granted and unlock in turn
+	Stray   int `json:"stray"`
+	Waiters int `json:"waiters"` // every 64th key additionally gets this many queued waiters (0..3) that are granted and unlock in turn
 }
 
 const c28BytesPerKey = 16.0
